@@ -101,6 +101,10 @@ Notation eng := (tei_proc basis SS mk_searcher search).
 Definition searcher_ok_wire : Prop :=
   forall s lim p, live p -> exists m rest v d n s', search s lim p = (s', (m :: rest, v, d, n)) /\ legal basis p m /\ wire_move m.
 
+(* ... and only at one position: all that the composition needs *)
+Definition searcher_ok_wire_at (p : position) : Prop :=
+  forall s lim, exists m rest v d n s', search s lim p = (s', (m :: rest, v, d, n)) /\ legal basis p m /\ wire_move m.
+
 Lemma searcher_ok_of_wire : searcher_ok_wire -> searcher_ok basis SS search.
 Proof. intros H s lim p Hl. destruct (H s lim p Hl) as (m & rest & v & d & n & s' & E & L & _). now exists m, rest, v, d, n, s'. Qed.
 
@@ -109,16 +113,16 @@ Proof. intros H. unfold classify. rewrite H. reflexivity. Qed.
 
 (* a go line with well-formed arguments, read by an engine that holds a live position *)
 Lemma step_go_answer (e : engine SS) line args p :
-  searcher_ok_wire -> wf_engine SS e -> fields line = s_go :: args -> e_pos e = Some p -> live p -> parse_go args targs0 <> None ->
+  searcher_ok_wire_at p -> wf_engine SS e -> fields line = s_go :: args -> e_pos e = Some p -> parse_go args targs0 <> None ->
   exists m rest v d n,
     sr_out (step e line) = [info_line (m :: rest) v d n; bestmove_line m] /\ sr_status (step e line) = Running /\
     legal basis p m /\ wire_move m /\ e_pos (sr_eng (step e line)) = Some p /\ wf_engine SS (sr_eng (step e line)).
 Proof.
-  intros Hs Hw Hf Ep Hl Ha. pose proof (step_wf basis SS mk_searcher search e line Hw) as Hwf. revert Hwf.
+  intros Hs Hw Hf Ep Ha. pose proof (step_wf basis SS mk_searcher search e line Hw) as Hwf. revert Hwf.
   rewrite step_classify, (classify_go _ _ Hf). unfold step_go. cbn [sr_out sr_status sr_eng]. unfold Tei.do_go. rewrite Ep.
   destruct (parse_go args targs0) as [a|]; [|congruence].
   rewrite (wf_analyze SS mk_searcher search e p _ Hw Ep).
-  destruct (Hs (snd (match e_mm e with Some s => s | None => (e_size e, mk_searcher (e_size e)) end)) (go_limit (to_move_white p) a) p Hl)
+  destruct (Hs (snd (match e_mm e with Some s => s | None => (e_size e, mk_searcher (e_size e)) end)) (go_limit (to_move_white p) a))
     as (m & rest & v & d & n & s' & Hsr & Hleg & Hwire).
   rewrite Hsr. cbn. intros Hwf. exists m, rest, v, d, n.
   split; [reflexivity|]. split; [reflexivity|]. split; [exact Hleg|]. split; [exact Hwire|]. split; [reflexivity|exact Hwf].
@@ -148,15 +152,15 @@ Qed.
    (the hypothesis of C17_tei_one_bestmove), NewGame succeeds, TEIGetMove returns Ok m, m is accepted by the move model in p
    (it is the searcher's move, through FormatMove and ParseMove: C11), the engine holds exactly p, and client and engine are in
    step again. *)
-Theorem client_server_move_legal (c : client (proc SS)) p dl tc :
-  searcher_ok_wire -> in_sync c ->
-  pos_ok p -> reserves_match_board p -> Move.black_wins_ties p = false -> (0 <= Move.move p < 2 ^ 63)%Z -> live p ->
+Theorem client_server_move_legal_at (c : client (proc SS)) p dl tc :
+  searcher_ok_wire_at p -> in_sync c ->
+  pos_ok p -> reserves_match_board p -> Move.black_wins_ties p = false -> (0 <= Move.move p < 2 ^ 63)%Z ->
   (forall d, dl = Some d -> int64 d) -> (forall t, tc = Some t -> tc_int64 t) -> go_words dl tc <> None ->
   exists c1 g, new_game (proc SS) eng c (Z.of_N (Move.size p)) = (c1, ROk g) /\
   exists c2 m, tei_get_move (proc SS) eng c1 g p dl tc = (c2, ROk m) /\
     legal basis p (to_rmove m) /\ in_sync c2 /\ e_pos (p_eng (c_es c2)) = Some p.
 Proof.
-  intros Hs Hsync Hp RM Hb Hm Hl Hdl Htc Hgo. pose proof (po_size _ Hp) as Hsz.
+  intros Hs Hsync Hp RM Hb Hm Hdl Htc Hgo. pose proof (po_size _ Hp) as Hsz.
   destruct Hsync as (Hbuf & Hcl & Hal & Hwf).
   (* NewGame *)
   unfold new_game.
@@ -179,7 +183,7 @@ Proof.
   set (e2 := ({| e_mm := None; e_pos := Some p; e_size := Z.of_N (Move.size p) |} : engine SS)).
   assert (W2 : wf_engine SS e2).
   { split; cbn; [intros q Hq; injection Hq as <-; reflexivity|intros; discriminate]. }
-  destruct (step_go_answer e2 (go_line (s_go :: args)) args p Hs W2 Hfields eq_refl Hl ltac:(rewrite Hparse; discriminate))
+  destruct (step_go_answer e2 (go_line (s_go :: args)) args p Hs W2 Hfields eq_refl ltac:(rewrite Hparse; discriminate))
     as (m & rest & v & d & n & Hout & Hst & Hleg & Hwire & Hpos & Hwf3).
   unfold send_command. cbn [c_es c_buf c_closed c_gameid].
   rewrite (proc_running {| p_eng := e2; p_alive := true |} _ eq_refl Hst). cbn [er_state er_out er_closed app orb p_eng p_alive].
@@ -199,6 +203,18 @@ Proof.
   eexists _, _. split; [reflexivity|]. rewrite to_of_rmove. split; [exact Hleg|].
   cbn [c_es p_eng c_buf c_closed p_alive]. split; [|exact Hpos].
   repeat split; try reflexivity; apply Hwf3.
+Qed.
+
+Theorem client_server_move_legal (c : client (proc SS)) p dl tc :
+  searcher_ok_wire -> in_sync c ->
+  pos_ok p -> reserves_match_board p -> Move.black_wins_ties p = false -> (0 <= Move.move p < 2 ^ 63)%Z -> live p ->
+  (forall d, dl = Some d -> int64 d) -> (forall t, tc = Some t -> tc_int64 t) -> go_words dl tc <> None ->
+  exists c1 g, new_game (proc SS) eng c (Z.of_N (Move.size p)) = (c1, ROk g) /\
+  exists c2 m, tei_get_move (proc SS) eng c1 g p dl tc = (c2, ROk m) /\
+    legal basis p (to_rmove m) /\ in_sync c2 /\ e_pos (p_eng (c_es c2)) = Some p.
+Proof.
+  intros Hs Hsync Hp RM Hb Hm Hl. apply client_server_move_legal_at; try assumption.
+  intros s lim. exact (Hs s lim p Hl).
 Qed.
 End Comp.
 
